@@ -24,7 +24,7 @@ import (
 	"verifharness/fakecmd"
 )
 
-var concOps = []string{"state", "states", "projstate", "logrange", "logsub", "start", "stop", "restart", "scale", "update", "info"}
+var concOps = []string{"state", "states", "projstate", "logrange", "logsub", "start", "stop", "restart", "scale", "update", "info", "shutdown"}
 
 type nullObserver struct{ id string }
 
@@ -161,6 +161,11 @@ func runBatch(id string, ops []string, seed int64) {
 			_ = runner.ScaleProcess(name, 1+r.Intn(3))
 		case "info":
 			_, _ = runner.GetProcessInfo(name)
+		case "shutdown":
+			// a project shutdown in the middle of everything (other requests may start processes again afterwards)
+			_ = runner.ShutDownProject()
+			time.Sleep(time.Duration(2+r.Intn(8)) * time.Millisecond)
+			_ = runner.StartProcess(names[r.Intn(3)])
 		case "update":
 			p2 := concProject()
 			pc := p2.Processes["job"]
